@@ -67,7 +67,7 @@ fn wide_family() -> ListSpace {
 }
 
 fn c14_spaces(thorough: bool) -> Vec<Box<dyn Space>> {
-    vec![Box::new(ms_b(if thorough { 5 } else { 4 }, true)), Box::new(ms_c()), Box::new(ms_d(thorough)), Box::new(wide_family())]
+    vec![Box::new(ms_b(if thorough { 5 } else { 4 }, true)), Box::new(ms_c()), Box::new(ms_d(thorough)), Box::new(wide_family()), Box::new(crate::families::scale_family(false)), Box::new(crate::families::unicode_family())]
 }
 
 /// the deterministic enumeration shared by all processes
